@@ -3,7 +3,7 @@
 One helper call, assignment or deletion (copy-on-write AND _inplace=True, symbolic) on a template instance built from symbolic leaves; arguments conforming and
 non-conforming, callbacks that raise or return ill-typed values, missing indices/keys, unknown keywords; afterwards every managed
 attribute of receiver and result (recursively) is missing or conforms (independent reference of C15); ill-typed arguments must be refused."""
-from vf.specops import K2_OPS, K2_SET_OPS, K3_OPS, K4_OPS, K5_OPS
+from vf.specops import K2_OPS, K2_SET_OPS, K3_FAIL_OPS, K3_OPS, K4_PREP_OPS, K4_OPS, K5_OPS
 from vf.stepcheck import K1_MATRIX, make, warm
 from vf.sym import Ob
 
@@ -29,6 +29,13 @@ def matrix(tier):
     for opname in K3_OPS:
         for attr in ("inner", "inner2"):
             out.append(("K3", opname, attr, True))
+    for opname in K3_FAIL_OPS:
+        for attr in ("inner", "inner2"):
+            out.append(("K3", opname, attr, True))
+    for opname in K4_PREP_OPS:
+        if PROP == "C01" and (opname.startswith("setattr") or opname.startswith("del")):
+            continue
+        out.append(("K4", opname, None, True))
     for opname in K4_OPS:
         if PROP == "C01" and opname.startswith("setattr"):
             continue
@@ -57,4 +64,93 @@ def obligations(tier):
                     timeout=T,
                 )
             )
+    return obs
+
+
+# ---------------------------------------------------------------------------------------------------------------------
+# preparers / item preparers that return conforming or NON-conforming values (the type check comes after preparation)
+
+
+def make_preparer(fam):
+    from typing import List as _List
+
+    from spec_classes import spec_class
+
+    from vf.sym import Skip, Violation, check, pick
+
+    @spec_class(bootstrap=(fam == "eager"))
+    class PR:
+        pw: int = 0
+        scores: _List[int] = []
+
+        def _prepare_pw(self, v):
+            if v == 13:
+                return [v]  # a preparer returning an ill-typed value
+            if isinstance(v, str):
+                return len(v)
+            return v
+
+        def _prepare_score(self, v):
+            if v == 13:
+                return "thirteen"  # an item preparer returning an ill-typed element
+            return v
+
+    def h(v: int, w: int, route: int, inplace: bool) -> str:
+        o = PR(pw=1, scores=[1])
+        kw = {"_inplace": True} if inplace else {}
+        name = pick(["with_pw", "setattr_pw", "update_pw", "ctor_pw", "with_score", "with_scores", "setattr_scores", "update_score", "ctor_scores", "transform_pw"], route)
+        bad = v == 13 or (w == 13 and name in ("with_scores", "setattr_scores", "ctor_scores"))
+        try:
+            if name == "with_pw":
+                r = o.with_pw(v, **kw)
+            elif name == "setattr_pw":
+                o.pw = v
+                r = o
+            elif name == "update_pw":
+                r = o.update(pw=v, **kw)
+            elif name == "ctor_pw":
+                r = PR(pw=v)
+            elif name == "transform_pw":
+                r = o.transform_pw(lambda t: v, **kw)
+            elif name == "with_score":
+                r = o.with_score(v, **kw)
+            elif name == "with_scores":
+                r = o.with_scores([w, v], **kw)
+            elif name == "setattr_scores":
+                o.scores = [w, v]
+                r = o
+            elif name == "update_score":
+                r = o.update_score(0, v, _by_index=True, **kw)
+            else:
+                r = PR(scores=[w, v])
+            exc = None
+        except (Violation, Skip):
+            raise
+        except Exception as ex:
+            r, exc = None, ex
+        tag = f"C03/preparer/{name}"
+        for who, x in (("receiver", o), ("result", r)):
+            if x is None:
+                continue
+            check(isinstance(x.pw, int) and not isinstance(x.pw, list), "each managed attribute holds a value that conforms to its annotation (prepared values included)", f"{tag}/nonconforming-pw-{who}", lambda: f"{x.pw!r}")
+            check(all(isinstance(e, int) for e in x.scores), "element types of list generics", f"{tag}/nonconforming-score-{who}", lambda: f"{x.scores!r}")
+        if bad:
+            check(isinstance(exc, (TypeError, ValueError)), "an operation that would establish a non-conforming value raises TypeError or ValueError instead of storing it", f"{tag}/ill-typed-prepared-value-accepted", lambda: f"{exc!r} {r!r}")
+            return "refused"
+        check(exc is None, "conforming prepared values are accepted", f"{tag}/unexpected-{type(exc).__name__}", lambda: repr(exc))
+        return "ok"
+
+    h.__name__ = f"C03_preparer_{fam}"
+    return h
+
+
+_base_obligations = obligations
+
+
+def obligations(tier):  # noqa: F811
+    from vf.sym import Ob
+
+    obs = _base_obligations(tier)
+    for fam in ("eager",) if tier == "quick" else ("eager", "lazy"):
+        obs.append(Ob(f"C03.{fam}.preparer", make_preparer(fam), [(v, 2, r, ip) for v in (5, 13) for r in range(10) for ip in (False, True)], "class whose preparer / item preparer returns an ill-typed value for the input 13: ten mutation routes (helpers, assignment, constructor, update, transform, whole collection) with SYMBOLIC int values, in place or copy-on-write", expect={"ok", "refused"}, timeout=200 if tier == "quick" else 900))
     return obs
